@@ -10,6 +10,7 @@ from .. import routes as RT
 from .. import summary as SM
 from .. import symx as SX
 from ..model import get_arg, is_self_attr, method_name, strip_doc
+from ..symx import safe_simplify
 from ..report import AnalysisError, norm_src
 
 EVIDENCE_FIELDS = {"visited_times", "rewards", "mean_reward", "variance", "reward", "reward_tilde"}
@@ -349,8 +350,68 @@ def pair_path(ctx, cls, fcs, recv_kind, attr):
     return ok_all
 
 
+def handout_attrs_only_set_by_pull(ctx, cls, designators):
+    """The instance attributes a credit designator reads (curr_node, path, best_arm, ...) carry the hand-out from
+    pull to receive_reward: nothing but pull (and the constructor) may write them - a query or any other method
+    writing them would re-direct the next reward."""
+    model = ctx.model
+    attrs = set()
+    for kind, outer, recv in designators:
+        if kind == "learner" or (kind == "mean" and cls.name != "Zooming"):
+            continue       # routers: the schedule state is covered by the routing rules
+        for src in (outer, recv):
+            try:
+                e = ast.parse(src.replace("EACH(", "(").replace("range(len(", "((") if "EACH" in src else src, mode="eval").body
+            except SyntaxError:
+                continue
+            for n in ast.walk(e):
+                if is_self_attr(n) and n.attr not in ("partition",):
+                    attrs.add(n.attr)
+    if cls.name == "Zooming":
+        attrs -= {"average_rewards", "pulled_times", "active_points"}
+    if not attrs:
+        return
+    pull = model.lookup(cls.name, "pull")[1]
+    closure, todo = set(), [pull]
+    while todo:
+        f = todo.pop()
+        if f.name in closure:
+            continue
+        closure.add(f.name)
+        for call in ast.walk(f):
+            if isinstance(call, ast.Call) and isinstance(call.func, ast.Attribute) and isinstance(call.func.value, ast.Name) and call.func.value.id == "self":
+                o, callee = model.lookup(cls.name, call.func.attr)
+                if callee is not None:
+                    todo.append(callee)
+    n = 0
+    for fn in cls.methods.values():
+        for s in ast.walk(fn):
+            hit = None
+            tg = s.targets if isinstance(s, ast.Assign) else ([s.target] if isinstance(s, (ast.AugAssign, ast.AnnAssign)) else [])
+            for t in tg:
+                for tt in (t.elts if isinstance(t, (ast.Tuple, ast.List)) else [t]):
+                    base = tt
+                    while isinstance(base, ast.Subscript):
+                        base = base.value
+                    if is_self_attr(base) and base.attr in attrs:
+                        hit = base.attr
+            if isinstance(s, ast.Call) and isinstance(s.func, ast.Attribute) and is_self_attr(s.func.value) and s.func.value.attr in attrs \
+                    and s.func.attr in E.MUTATING_CONTAINER_METHODS:
+                hit = s.func.value.attr
+            if hit is None:
+                continue
+            n += 1
+            ok = fn.name in closure or fn.name == "__init__"
+            ctx.ob("R04-PAIR", ok, cls.file, "%s.%s" % (cls.name, fn.name), norm_src(s)[:90],
+                   "hand-out state self.%s written by pull (or the constructor)" % hit if ok else
+                   "self.%s tells receive_reward which cell/arm to credit; it is overwritten in %s, so a call of %s between pull and "
+                   "receive_reward re-directs the reward" % (hit, fn.name, fn.name), s.lineno, nontrivial=not ok)
+    return n
+
+
 def check_pair(ctx, cls, designators, fcs):
     model = ctx.model
+    handout_attrs_only_set_by_pull(ctx, cls, designators)
     pull = model.lookup(cls.name, "pull")[1]
     fc = fcs(cls.name, pull)
     ctx.fn(fc.qual)
@@ -520,6 +581,49 @@ def check_write(ctx):
                     ok, why = remove_reward_site_ok(model, c, fn, call)
                     ctx.ob("R04-WRITE", ok, c.file, qual, norm_src(call), why, call.lineno)
     ctx.count("R04-WRITE evidence-field stores examined", n, 20)
+    check_arm_statistics(ctx)
+
+
+ARM_STATS = ("average_rewards", "pulled_times")
+
+
+def check_arm_statistics(ctx):
+    """Zooming keeps its evidence in two maps keyed by arm.  An arm's statistics may be written only by the
+    crediting step (key = the pulled arm) or, with zeros, for an arm object created in the same call."""
+    model = ctx.model
+    if "Zooming" not in model.classes:
+        return
+    c = model.cls("Zooming")
+    n = 0
+    for fn in c.methods.values():
+        qual = "Zooming.%s" % fn.name
+        for s in ast.walk(fn):
+            tg = s.targets if isinstance(s, ast.Assign) else ([s.target] if isinstance(s, (ast.AugAssign, ast.AnnAssign)) else [])
+            for t in tg:
+                if isinstance(t, ast.Subscript) and is_self_attr(t.value) and t.value.attr in ARM_STATS:
+                    n += 1
+                    key = norm_src(t.slice)
+                    if fn.name == "receive_reward":
+                        ok = key == "self.best_arm"
+                        why = "statistics of the pulled arm" if ok else "statistics of '%s' are changed while crediting %s" % (key, "self.best_arm")
+                    else:
+                        zero = isinstance(s, ast.Assign) and isinstance(s.value, ast.Constant) and s.value.value == 0
+                        defs = [a for a in ast.walk(fn) if isinstance(a, ast.Assign) and any(norm_src(x) == key for x in a.targets)]
+                        fresh = isinstance(t.slice, ast.Name) and len(defs) == 1 and isinstance(defs[0].value, ast.Call) and \
+                            norm_src(defs[0].value.func) == "point" and key not in [a.arg for a in fn.args.args]
+                        ok = zero and fresh
+                        why = ("zero statistics for an arm created in this very call" if ok else
+                               "the statistics of '%s' are %s outside the crediting step: an existing arm's history can be overwritten"
+                               % (key, "reset to 0" if zero else "written"))
+                    ctx.ob("R04-WRITE", ok, c.file, qual, norm_src(s)[:90], why, s.lineno)
+            if isinstance(s, ast.Call) and isinstance(s.func, ast.Attribute) and is_self_attr(s.func.value) and s.func.value.attr in ARM_STATS \
+                    and s.func.attr in ("pop", "clear", "update", "setdefault", "popitem"):
+                ctx.violation("R04-WRITE", c.file, qual, norm_src(s), "arm statistics changed through %s()" % s.func.attr, s.lineno)
+        for s in ast.walk(fn):
+            tg = s.targets if isinstance(s, ast.Assign) else ([s.target] if isinstance(s, (ast.AugAssign, ast.AnnAssign)) else [])
+            if any(is_self_attr(t) and t.attr in ARM_STATS for t in tg) and fn.name != "__init__":
+                ctx.violation("R04-WRITE", c.file, qual, norm_src(s), "an arm-statistics map is replaced", s.lineno)
+    ctx.count("R04-WRITE arm-statistics stores in Zooming", n, 4)
 
 
 def remove_reward_site_ok(model, c, fn, call):
@@ -583,8 +687,8 @@ def check_means(ctx, cls, info, reward):
             r = T.sym(reward)
             # solve for n: expr == (S*n + r)/(n+1)  =>  n = (r - expr)/(expr - S) ... check by matching numerator/denominator instead
             num, den = sp.fraction(sp.together(expr))
-            nsym = sp.simplify(den - 1)
-            ok = sp.simplify(expr - (S * nsym + r) / (nsym + 1)) == 0 and S not in nsym.free_symbols and r not in nsym.free_symbols
+            nsym = safe_simplify(den - 1)
+            ok = safe_simplify(expr - (S * nsym + r) / (nsym + 1)) == 0 and S not in nsym.free_symbols and r not in nsym.free_symbols
             count_src = str(nsym)
             ctx.ob("R04-MEAN", ok, cls.file, qual, "%s = %s" % (target, norm_src(val)),
                    "running mean with count n = %s" % count_src if ok else "not of the form (S*n + reward)/(n + 1)", fn.lineno)
